@@ -74,6 +74,17 @@ LoadedFaces(rd) ==
             IF FacesOk(rd[i]) THEN [t \in 1..NTris(rd[i]) |-> [c \in 1..3 |-> rd[i].pos[rd[i].idx[3 * (t - 1) + c] + 1]]]
             ELSE <<>>])
 
+FacesFull(groups) == Flat([g \in DOMAIN groups |-> groups[g].tris])
+LoadedFull(rd) == Flat([i \in DOMAIN rd |-> Tris(rd[i])])
+Bad2(name, ok) == IF ok THEN {} ELSE {name}
+\* face list b keeps face list a: same length, same positions, and whatever uv / normal a corner of a has
+Keeps(a, b) ==
+    /\ Len(a) = Len(b)
+    /\ \A k \in DOMAIN a : \A c \in 1..3 :
+          /\ b[k][c][1] = a[k][c][1]
+          /\ a[k][c][2] = <<>> \/ b[k][c][2] = a[k][c][2]
+          /\ a[k][c][3] = <<>> \/ b[k][c][3] = a[k][c][3]
+
 LdJudge(ln) ==
     LET d0 == Denote(ln.stmts)
         f0 == FacesPos(d0.groups) IN
@@ -90,7 +101,15 @@ LdJudge(ln) ==
                              [bad |-> (IF Surplus(f0, f2) # {} THEN {"C05.SaveFacesLost"} ELSE {})
                                       \cup (IF Surplus(f2, f0) # {} THEN {"C05.SaveFacesInvented"} ELSE {}),
                               why |-> {}]
-         IN [bad |-> ld \cup sv.bad, why |-> sv.why,
+             \* beyond the statement (reported as Aux.*, never a C05 verdict): faces stay in file order and
+             \* every uv / normal a corner HAS in the text is kept by the load and by the save
+             aux == (IF \A i \in DOMAIN ln.rd : MeshOk(ln.rd[i])
+                     THEN Bad2("Aux.LoadCorners", Keeps(FacesFull(d0.groups), LoadedFull(ln.rd)))
+                     ELSE {"Aux.LoadCorners"})
+                    \cup (IF ln.werr = "" /\ Denote(ln.stmts2).ok
+                          THEN Bad2("Aux.SaveCorners", Keeps(FacesFull(d0.groups), FacesFull(Denote(ln.stmts2).groups)))
+                          ELSE {})
+         IN [bad |-> ld \cup sv.bad \cup aux, why |-> sv.why,
              ex |-> IF f0 = <<>> THEN {"C05.LoadOk", "C05.SaveOk"}
                     ELSE {"C05.LoadOk", "C05.LoadFacesLost", "C05.LoadFacesInvented", "C05.SaveOk"}
                          \cup (IF ln.werr = "" THEN {"C05.SaveValid"} ELSE {})
